@@ -24,6 +24,10 @@ class RunTimeout(BaseException):
     pass
 
 
+# every scenario this process has executed, in order (process history is
+# part of the schedule: a child forked per chunk starts with an empty log)
+EXEC_LOG = []
+
 # wall-clock cap per run, seconds (runs normally take milliseconds)
 WALL_CAP = float(os.environ.get('VERIF_WALL_CAP', '60'))
 
@@ -339,6 +343,7 @@ def _spy_sink(tr, log):
 def run_lp(sc, prefer=None, xcheck=None, wall_cap=None, keep_sets=True):
     """family 'lp': instance text + solver options + API ops."""
     import instances
+    EXEC_LOG.append(sc)
     tr = Trace()
     if wall_cap is None:
         wall_cap = WALL_CAP
@@ -397,6 +402,7 @@ def run_gen(sc, prefer=None, xcheck=None, wall_cap=None, keep_sets=True):
     import numpy
     from matchingproblems import generator as gen_pkg
     from matchingproblems.generator import generator_shared
+    EXEC_LOG.append(sc)
     tr = Trace()
     if wall_cap is None:
         wall_cap = WALL_CAP
